@@ -26,13 +26,16 @@ Oracle (no model involved), per call made under a foreign non-admin context:
   - every created row carries the caller's project, whatever project_id the values contain; an update never
     moves a row to a project other than the caller's.
 
-Known defects of the unchanged tree reported by the oracle (signatures; <fn> = the function where the guard is missing,
-create_or_update_X counts as update_X, every delete_Xs as _delete_all):
+Oracle signatures (<fn> = the function where the guard is missing, create_or_update_X counts as update_X, every
+delete_Xs as _delete_all):
   F2 foreign-write:<fn>      update/delete of another project's PUBLIC row (or of a workbook shared through an accepted
-                             membership) succeeds at db-api and REST level: no check_db_obj_access / own-rows filter
-  F7 reshare-by-member       an accepted member offers the owner's private workflow to a third project (REST)
-  F9 owner-not-forced:<fn>   EventTrigger is defined after mb.register_secure_model_hooks(): a supplied project_id is
-                             stored as given (db-api level only; the REST resource makes project_id read-only)
+                             membership).  REPAIRED in /repo by 11fed235; the 19 former witnesses are kept in
+                             corpus/C15/regressions.json and must be refused (suite regressions, signature regression:...)
+  F7 reshare-by-member       an accepted member offers the owner's private workflow to a third project (REST).
+                             REPAIRED by 855c3b2d; replayed in suite rest
+  F9 owner-not-forced:create_event_trigger / owner-not-forced:update_event_trigger   OPEN: EventTrigger is defined after
+                             mb.register_secure_model_hooks(): a supplied project_id is stored as given (db-api level
+                             only; the REST resource makes project_id read-only)
 
 Self-test (scratch worktree, `VERIF_REPO=/tmp/wt_C15 ./check C15`), each gives NEW VIOLATION signatures:
   M1  api.py update_workflow_definition: drop `m_dbutils.check_db_obj_access(wf_def)` -> foreign-write:update_workflow_definition;
@@ -1274,6 +1277,52 @@ def suite_expr(ctx):
 
 
 # ---------------------------------------------------------------------------
+# regression corpus: the witnesses of the repaired defects F2 / F7 (corpus/C15/regressions.json, taken from the
+# replay files the check wrote before /repo commits 11fed235 and 855c3b2d) must now be refused
+
+REGRESSIONS = os.path.join(core.VERIF, 'corpus', 'C15', 'regressions.json')
+
+
+def suite_regressions(ctx, table):
+    by_name = {e['name']: e for e in table['entries']}
+    cases = json.load(open(REGRESSIONS))
+    seen = {}
+    for case in cases:
+        r, was = case['replay'], case['was']
+        if 'cell' in r:
+            cell = r['cell']
+            entry = by_name.get(cell['fn'])
+            if entry is None:
+                ctx.disagree('regressions', case['was'], 'function still exists', 'function %s is gone' % cell['fn'])
+                continue
+            rows, mems, before, outcome, after, ca = run_cell(cell, entry)
+            key = (cell['model'], uid(1))
+            intact = before[0].get(key) is not None and before[0].get(key) == after[0].get(key)
+            refused = outcome[0] in ('denied', 'notfound') or entry['kind'] == 'delete_all'
+            seen[was] = outcome[0]
+            oracle_cell(ctx, cell, entry, outcome, before, after)
+        elif 'rest' in r and 'url' in r:
+            rest_app()
+            wipe()
+            insert_row(r['model'], 1, 'pA', r.get('scope', 'public'), 100, 0, 5)
+            before = snapshot()
+            st, body = req('pB', False, r['rest'], r['url'], *([r['body']] if r.get('body') is not None else []))
+            after = snapshot()
+            key = (r['model'], uid(1))
+            intact = before[0].get(key) == after[0].get(key)
+            refused = st >= 400
+            seen[was] = st
+        elif 'rest_members' in r:
+            continue   # replayed step by step in suite rest (signature reshare-by-member)
+        else:
+            continue
+        ctx.count('regressions', was)
+        ctx.cov['disagreements_checked'] += 1
+        if not (intact and refused):
+            ctx.fail('regression:' + was, 'the witness of the repaired defect works again: %s (now: %s, row %s)'
+                     % (case['what_was'][:160], seen[was], 'intact' if intact else 'changed or deleted'), r)
+    ctx.cov['suites'].setdefault('regressions', {})['outcomes_now'] = seen
+
 
 def run(ctx):
     ctx.cov['rule'] = ('db_matrix: every tenant-facing db-api function of the generated table x addressing x actor relation x scope x '
@@ -1297,7 +1346,8 @@ def run(ctx):
     import time
     walls = {}
     cells = all_cells(table)
-    for name, f in [('db_matrix', lambda: suite_db_matrix(ctx, table, cells)),
+    for name, f in [('regressions', lambda: suite_regressions(ctx, table)),
+                    ('db_matrix', lambda: suite_db_matrix(ctx, table, cells)),
                     ('members', lambda: suite_members(ctx)),
                     ('histories', lambda: suite_histories(ctx, table, ctx.n(60, 900), ctx.n(8, 10))),
                     ('rest', lambda: suite_rest(ctx)),
@@ -1316,6 +1366,7 @@ def search(ctx, table=None):
     """Wider oracle-only search (no model): the whole matrix, many more histories, REST and expression scenarios."""
     table = table or load_table(ctx)
     boot()
+    suite_regressions(ctx, table)
     by_name = {e['name']: e for e in table['entries']}
     for cell in all_cells(table):
         entry = by_name[cell['fn']]
